@@ -500,6 +500,23 @@ def run(ctx) -> None:
                "the staging destination %s is not confined to <working directory>/<basename>: a crafted reference path can "
                "place data outside the component's working directory" % short(call.args[1], 60))
 
+    # R2c: a folder copy creates its destination.  copytree() refuses an existing destination, so everything it writes is freshly created;
+    # with dirs_exist_ok it MERGES into the tree that an earlier reference of the same base name populated - with symlinks=True that tree
+    # holds the producer's links as they were, and the second copy writes regular files THROUGH them (shutil.copy2 follows a link at its
+    # destination).  A test of the top-level entry cannot see links deeper in the tree.
+    for sn in sinks:
+        for call in [c for c in own_calls(sn.ast) if call_name(c) in ("shutil.copytree", "distutils.dir_util.copy_tree", "dir_util.copy_tree", "copy_tree")]:
+            merge = [k for k in call.keywords if k.arg == "dirs_exist_ok" and not (isinstance(k.value, ast.Constant) and not k.value.value)]
+            always = call_name(call).endswith("copy_tree")
+            ok = not merge and not always
+            ctx.ob("C18.R2-basename-destinations", call, ok,
+                   "the folder copy creates its destination (it never merges into an existing tree)" if ok else
+                   "the folder copy merges into an existing destination (%s): staging 'stage0.Foo:copy' and then 'stage1.Foo:copy' descends into the tree "
+                   "the first copy filled with the producer's links (result.dat -> <stage0>/Bar/result.dat) and writes stage1's regular result.dat "
+                   "through the link - a file outside the working directory is overwritten and staging reports success"
+                   % (short(merge[0].value, 20) if merge else "copy_tree always merges"),
+                   construct="%s creates its destination" % short(call, 40))
+
     # R2b: a content copy follows a link that already sits at its destination (an earlier ':link' reference with the same
     # file name): the file that will be written is tested not to be a link, and the copy is not reached when it is one
     WRITE_THROUGH = ("shutil.copy", "shutil.copy2", "shutil.copyfile")
